@@ -348,12 +348,16 @@ Verdict IoEngine::execute(const Plan& plan, EventLog& log, Stats& st)
   std::vector<size_t> cuts;
   int fired = 0;
   std::string ev_shape;
+  if (plan.get("synth") == "g3") {              // grammar-derived g3 model, built from the plan's steps
+    int ns = 0; B = ioev::build_g3(plan, &ns, &ev_shape); fired += ns; valid = false;
+    st.add("synthetic_g3_models"); st.add("synthetic_g3_steps", ns);
+  }
   if (!plan.get("alphabet").empty()) {          // class (iii): the document is built from the plan's events
     int ne = 0; B = ioev::build(plan, &ne, &ev_shape); fired += ne; valid = false;
     st.add("event_documents"); st.add("events", ne); st.state("event_contexts", plan.get("alphabet") + "/" + plan.get("ctx"));
   }
   for (const Step& s : plan.steps) {
-    if (is_transport(s.op) || s.op == "ev") continue;
+    if (is_transport(s.op) || s.op == "ev" || s.op == "gs" || s.op == "gp" || s.op == "go") continue;
     bool vp = true;
     bool applied = apply_edit(B, s, vp);
     if (applied) { fired++; st.add("fault." + s.op); if (!vp) valid = false; if (s.op == "err") err_end = true; }
@@ -502,6 +506,29 @@ Plan IoEngine::generate(uint64_t seed, uint64_t index, const std::string& tier)
     if (g.chance(1, 12)) p.seti("noclose", 1);
     int nc = g.chance(1, 2) ? 0 : (int)g.range(1, 4);
     for (int i = 0; i < nc; i++) { Step s; s.op = "cut"; s.a = {(long long)g.below(4000)}; p.steps.push_back(s); }
+    return p;
+  }
+  if (g.chance(1, 12)) {
+    // grammar-derived g3 models: points with every combination of status and coordinates, every observation kind,
+    // between declared, coordinate-less and undeclared points
+    p.set("synth", "g3"); p.set("name", "synthetic-g3");
+    p.set("target", g.chance(3, 4) ? "g3" : "data"); p.seti("g3alg", (long long)g.below(4));
+    auto st3 = [&](const char* op, std::initializer_list<long long> a) { Step s; s.op = op; s.a = a; p.steps.push_back(s); };
+    int np = (int)g.range(2, 6), no = (int)g.range(1, 8);
+    bool tidy = g.chance(1, 2);                    // half of the models are plain: coordinates for everybody, sensible statuses
+    if (tidy) st3("gs", {0, 7});
+    for (int i = 0; i < np; i++) {
+      if (tidy && i == 1) st3("gs", {1, 7});
+      else if (!tidy && g.chance(1, 3)) st3("gs", {(long long)g.below(4), (long long)g.below(8)});
+      st3("gp", {tidy ? (long long)i : (long long)g.below(8), tidy ? (long long)g.range(1, 2) : (long long)g.below(3), tidy ? 0 : (long long)g.below(64)});
+    }
+    for (int i = 0; i < no; i++) {
+      long long a = tidy && !g.chance(1, 6) ? (long long)g.below(np) : (long long)g.below(8), b = tidy && !g.chance(1, 6) ? (long long)g.below(np) : (long long)g.below(8);
+      static const int KIND[] = {0, 0, 1, 2, 2, 3, 3, 3, 5, 5, 6, 7, 7, 4};     // <azimuth> (4) is refused by the g3 parser wherever it stands
+      st3("go", {(long long)KIND[g.below(14)], a, b, (long long)g.below(8), (long long)g.below(100000)});
+    }
+    int nc = g.chance(2, 3) ? 0 : (int)g.range(1, 3);
+    for (int i = 0; i < nc; i++) st3("cut", {(long long)g.below(6000)});
     return p;
   }
   int tr = (int)g.below(100);
